@@ -3,6 +3,9 @@ import numpy as np
 import torch
 
 DT = {"float64": torch.float64, "float32": torch.float32}
+# monotonically increasing maps [0,1] -> [0,1] for GradDrop's `f` (documented parameter): identity (default), two that are NOT
+# odd-symmetric about (0.5, 0.5), one steep symmetric one
+GRADDROP_F = {"identity": None, "square": lambda p: p ** 2, "sqrt": lambda p: p.sqrt(), "steep": lambda p: (4 * (p - 0.5) + 0.5).clamp(0, 1)}
 
 
 def make(desc: dict, dtype=torch.float64):
@@ -57,7 +60,8 @@ def _make(desc: dict, dtype=torch.float64):
     if name == "Random":
         return A.Random()
     if name == "GradDrop":
-        return A.GradDrop(leak=vec("leak"))
+        f = GRADDROP_F.get(desc.get("f", "identity"))
+        return A.GradDrop(leak=vec("leak")) if f is None else A.GradDrop(f=f, leak=vec("leak"))
     if name == "NashMTL":
         return A.NashMTL(n_tasks=desc["n_tasks"], max_norm=desc.get("max_norm", 1.0),
                          update_weights_every=desc.get("every", 1), optim_niter=desc.get("optim_niter", 20))
